@@ -1,6 +1,7 @@
 import Skc.Drv.Json
 import Skc.Drv.OpsC03
 import Skc.Drv.OpsAgg
+import Skc.Drv.OpsEval
 import Skc.Drv.OpsDom
 import Skc.Drv.OpsElectre
 import Skc.Drv.OpsC01
@@ -23,6 +24,7 @@ namespace Skc.Drv
 def handlers : List (String → Json → Option (Except String Json)) :=
   [ handleC03
   , handleAgg
+  , handleEval
   , handleDom
   , handleElectre
   , handleC01
